@@ -219,9 +219,10 @@ RefS0xN(w, v, n) == <<115, 48, 120>> \o Map(HexByteU, NatToHexN(NatNorm(Pattern(
 (* entropy heuristic (unique digits / length, capped at the base),         *)
 (* evaluated here in exact rational arithmetic (the code uses float64, so  *)
 (* the choice may differ at exact ties; the choice is never part of a      *)
-(* verdict, only the value is).  BoolPanics = TRUE is the code as written: *)
-(* Ident panics for an i1 whose X is neither 0 nor 1, although -1 is a     *)
-(* representable i1 value that the parser produces for "i1 -1".            *)
+(* verdict, only the value is).  BoolPanics = TRUE is the code as it was at *)
+(* the pinned commit (repaired since): Ident panics for an i1 whose X is   *)
+(* neither 0 nor 1, although -1 is a representable i1 value that the       *)
+(* parser produces for "i1 -1".  FALSE: -1 is printed "true".              *)
 (***************************************************************************)
 Distinct(ds) == Cardinality({ds[i] : i \in 1..Len(ds)})
 UseHex(mag) ==
@@ -399,7 +400,8 @@ RefEncodeID(kind, ds) ==
     [] kind = "mdname" -> <<33>> \o ds
 
 (***************************************************************************)
-(* The encoders of internal/enc/enc.go as written (the AsImplemented model *)
+(* The encoders of internal/enc/enc.go as written at the pinned commit,    *)
+(* before the repair of the leading-digit rule (the AsImplemented model    *)
 (* of LiteralsName.tla).  EscapeIdent quotes iff some byte is outside      *)
 (* [-a-zA-Z$._0-9] and has no rule for the first character;                *)
 (* GlobalName/LocalName/LabelName quote names that strconv.ParseUint       *)
